@@ -922,6 +922,9 @@ def _int_or_none(val: str) -> int | None:
     val = val.strip()
     if val == "":
         return None
+    if not re.fullmatch("[0-9]+", val):
+        # int() also accepts signs, underscores and non-ASCII digits
+        raise ValueError("invalid integer %r" % val)
     return int(val)
 
 
